@@ -26,6 +26,12 @@ package main
 //                                                       Answer per call `<bits>:<u>`: ml/pf two bits (value == Pair(P,Q), value == e(G1,G2)^Σab),
 //                                                       cf the verdict; u = lines AND points identical to the snapshot taken before the first call.
 //                                                       Model: each call answered from its own arguments (by value), u = 1.
+//   fehist   <curve> <g> <n> (<s> a_1..a_s b_1..b_s)×g (<m> i_1..i_m)×n   CALL HISTORY on Miller-loop OUTPUTS: M_j = MillerLoop of the j-th sub-list of
+//                                                       pairs ([a]G1,[b]G2) (1 ≤ s ≤ 5), computed once; then n calls FinalExponentiation(&M_i1, &M_i2, …)
+//                                                       (variadic, 1 ≤ m ≤ 4 arguments, 0-based indices, the SAME objects call after call).
+//                                                       Answer per call `<b1><b2><z>:<u>`: b1 value == Pair(pairs of the named sub-lists), b2 value ==
+//                                                       e(G1,G2)^Σab (GT.Exp), z value == 1, u = every M_j bit-identical to its snapshot.
+//                                                       Model: 11, z = (Σab ≡ 0 mod r) from this call's own arguments, u = 1.
 // err:size is answered only when ALL of Pair, PairingCheck, MillerLoop, PairFixedQ, PairingCheckFixedQ, MillerLoopFixedQ
 // (and, on bw6-761, MillerLoopDirect) return an error; a partial error pattern is rendered `err-mismatch:<bits>`
 // (bit order as listed, 1 = error). On bw6-761 bit1 of `variants` also demands FinalExponentiation(MillerLoopDirect(P,Q)) == V.
@@ -66,6 +72,7 @@ type pairingAPI struct {
 	point    func(which int, a *big.Int) string
 	reuse    func(a, b *big.Int) string
 	hist     func(b []*big.Int, kinds []string, as [][]*big.Int) string
+	fehist   func(ga, gb [][]*big.Int, calls [][]int) string
 }
 
 var pairings = map[string]*pairingAPI{}
@@ -327,6 +334,45 @@ func newPairing[G1, G2, GT, L any](
 		}
 		return strings.Join(out, " ")
 	}
+	api.fehist = func(ga, gb [][]*big.Int, calls [][]int) string {
+		g, _ := pair([]G1{base1(big.NewInt(1))}, []G2{base2(big.NewInt(1))})
+		one := ops.one()
+		ms := make([]GT, len(ga)) // the Miller-loop outputs: computed once, the same objects through every call
+		Ps := make([][]G1, len(ga))
+		Qs := make([][]G2, len(ga))
+		for j := range ga {
+			Ps[j], Qs[j] = points(ga[j], gb[j])
+			m, err := miller(Ps[j], Qs[j])
+			if err != nil {
+				return "err:other"
+			}
+			ms[j] = m
+		}
+		snap := append([]GT(nil), ms...)
+		var out []string
+		for _, idx := range calls {
+			var P []G1
+			var Q []G2
+			sum := new(big.Int)
+			for _, j := range idx {
+				P = append(P, Ps[j]...)
+				Q = append(Q, Qs[j]...)
+				sum.Add(sum, sumAB(ga[j], gb[j]))
+			}
+			V, err := pair(P, Q)
+			if err != nil {
+				return "err:other"
+			}
+			W := ops.exp(g, sum)
+			rest := make([]*GT, 0, len(idx))
+			for _, j := range idx[1:] {
+				rest = append(rest, &ms[j])
+			}
+			v := fe(&ms[idx[0]], rest...)
+			out = append(out, boolStr(ops.eq(&v, &V))+boolStr(ops.eq(&v, &W))+boolStr(ops.eq(&v, &one))+":"+boolStr(reflect.DeepEqual(ms, snap)))
+		}
+		return strings.Join(out, " ")
+	}
 	pairings[name] = api
 }
 
@@ -542,6 +588,64 @@ func execC05(a []string) string {
 			}
 		}
 		return api.hist(bs, kinds, as)
+	case "fehist":
+		if len(a) < 4 {
+			return "bad-op"
+		}
+		ng, ok1 := parseSmall(a[2])
+		n, ok2 := parseSmall(a[3])
+		if !ok1 || !ok2 || ng == 0 || ng > 8 || n == 0 || n > 8 {
+			return "bad-op"
+		}
+		rest := a[4:]
+		var ga, gb [][]*big.Int
+		for j := 0; j < ng; j++ {
+			if len(rest) < 1 {
+				return "bad-op"
+			}
+			sz, ok := parseSmall(rest[0])
+			if !ok || sz == 0 || sz > 5 || len(rest) < 1+2*sz {
+				return "bad-op"
+			}
+			var xa, xb []*big.Int
+			for i := 0; i < 2*sz; i++ {
+				v, ok := parseSBig(rest[1+i])
+				if !ok {
+					return "bad-op"
+				}
+				if i < sz {
+					xa = append(xa, v)
+				} else {
+					xb = append(xb, v)
+				}
+			}
+			ga, gb = append(ga, xa), append(gb, xb)
+			rest = rest[1+2*sz:]
+		}
+		var calls [][]int
+		for c := 0; c < n; c++ {
+			if len(rest) < 1 {
+				return "bad-op"
+			}
+			m, ok := parseSmall(rest[0])
+			if !ok || m == 0 || m > 4 || len(rest) < 1+m {
+				return "bad-op"
+			}
+			var idx []int
+			for i := 0; i < m; i++ {
+				j, ok := parseSmall(rest[1+i])
+				if !ok || j >= ng {
+					return "bad-op"
+				}
+				idx = append(idx, j)
+			}
+			calls = append(calls, idx)
+			rest = rest[1+m:]
+		}
+		if len(rest) != 0 {
+			return "bad-op"
+		}
+		return api.fehist(ga, gb, calls)
 	case "bilin", "bilinv", "reuse":
 		if len(a) != 4 {
 			return "bad-op"
@@ -714,7 +818,7 @@ func genC05(g *gen) {
 		}
 		g.emit("C05 order %s", curve)
 		// variants / check: k = 1..5, generic vectors, zeros at every position, vanishing sums
-		maxK := g.budget(4, 6)
+		maxK := g.budget(5, 6)
 		for k := 1; k <= maxK; k++ {
 			reps := g.budget(1, 4)
 			for rep := 0; rep < reps; rep++ {
@@ -728,9 +832,7 @@ func genC05(g *gen) {
 			}
 			// a zero (point at infinity) at every position, on either side, and on both
 			for z := 0; z < k; z++ {
-				if !g.thorough() && k > 2 && z != g.rng.intn(k) {
-					continue
-				}
+				// every position z of P, of Q and of both, in both tiers (the fixed-Q variants are bits 4, 5 of `variants`)
 				for side := 0; side < 3; side++ {
 					var as, bs []*big.Int
 					for i := 0; i < k; i++ {
@@ -748,7 +850,7 @@ func genC05(g *gen) {
 						bs[z] = zero
 					}
 					g.c05Line("variants", curve, as, bs)
-					if side == 0 {
+					if side == 0 || k > 2 {
 						g.c05Line("check", curve, as, bs)
 					}
 				}
@@ -838,6 +940,79 @@ func genC05(g *gen) {
 				}
 			}
 		}
+		// call HISTORIES on Miller-loop OUTPUTS (op `fehist`): MillerLoop on 2..4 sub-lists of 1..3 pairs, then FinalExponentiation with 1, 2, 3
+		// arguments repeated 2-3 times on the SAME objects, interleaved with single-argument calls; one layout with cancelling sub-lists
+		// (e(aG1,bG2)·e(-abG1,G2) = 1) so that the `== 1` bit takes both values
+		{
+			feLine := func(ga, gb [][]*big.Int, calls [][]int) {
+				var w []string
+				for j := range ga {
+					w = append(w, big.NewInt(int64(len(ga[j]))).Text(10))
+					for _, v := range ga[j] {
+						w = append(w, sHex(v))
+					}
+					for _, v := range gb[j] {
+						w = append(w, sHex(v))
+					}
+				}
+				for _, c := range calls {
+					w = append(w, big.NewInt(int64(len(c))).Text(10))
+					for _, j := range c {
+						w = append(w, big.NewInt(int64(j)).Text(10))
+					}
+				}
+				g.emit("C05 fehist %s %d %d %s", curve, len(ga), len(calls), join(w))
+			}
+			groups := func(ng, maxSize int) (ga, gb [][]*big.Int) {
+				for j := 0; j < ng; j++ {
+					sz := 1 + g.rng.intn(maxSize)
+					var xa, xb []*big.Int
+					for i := 0; i < sz; i++ {
+						xa = append(xa, c05Scalar(g, r))
+						xb = append(xb, c05Scalar(g, r))
+					}
+					ga, gb = append(ga, xa), append(gb, xb)
+				}
+				return
+			}
+			fixed := [][][]int{
+				{{0, 1}, {0, 1}, {0}},
+				{{0, 1, 2}, {0, 1, 2}, {0}, {1}, {0, 1, 2}},
+				{{0}, {0}, {1, 0}, {1}, {0, 1}, {0}},
+				{{1, 2}, {0, 1}, {1, 2}, {2}, {0}},
+			}
+			for rep := 0; rep < g.budget(1, 3); rep++ {
+				for _, calls := range fixed {
+					ga, gb := groups(3, g.budget(2, 3))
+					feLine(ga, gb, calls)
+				}
+				// random histories: 2..4 outputs, 3..6 calls of 1..3 (thorough 4) arguments, indices drawn with repetition
+				for m := 0; m < g.budget(2, 4); m++ {
+					ng := 2 + g.rng.intn(3)
+					ga, gb := groups(ng, g.budget(2, 3))
+					var calls [][]int
+					for c := 0; c < 3+g.rng.intn(4); c++ {
+						var idx []int
+						for i := 0; i < 1+g.rng.intn(g.budget(3, 4)); i++ {
+							idx = append(idx, g.rng.intn(ng))
+						}
+						calls = append(calls, idx)
+					}
+					feLine(ga, gb, calls)
+				}
+				// cancelling outputs: M0 = ML(aG1,bG2), M1 = ML(-abG1,G2), M2 generic, M3 = ML of an all-infinite list
+				{
+					a, b := c05Scalar(g, r), c05Scalar(g, r)
+					ab := new(big.Int).Mul(a, b)
+					ga, gb := groups(1, 2)
+					ga = append([][]*big.Int{{a}, {new(big.Int).Neg(ab)}}, ga...)
+					gb = append([][]*big.Int{{b}, {one}}, gb...)
+					ga = append(ga, []*big.Int{new(big.Int), c05Scalar(g, r)})
+					gb = append(gb, []*big.Int{c05Scalar(g, r), new(big.Int).Set(r)})
+					feLine(ga, gb, [][]int{{0, 1}, {0, 1}, {0}, {1, 0}, {3}, {0, 1, 2}, {3, 0, 1}, {2}})
+				}
+			}
+		}
 		// the classical e(aG1, bG2)·e(−abG1, G2) = 1
 		for rep := 0; rep < g.budget(1, 3); rep++ {
 			a, b := c05Scalar(g, r), c05Scalar(g, r)
@@ -901,6 +1076,52 @@ func genC05(g *gen) {
 				}
 			}
 		}
+		// size mismatch with an ALL-TRIVIAL common prefix: every pair of the common prefix has a point at infinity (on the P side, the Q side
+		// or both; scalar 0 or r), the surplus points are generic (or infinite too); every (nP,nQ) off the diagonal incl. an empty side.
+		// `variants` asks ALL entry points (Pair, PairingCheck, MillerLoop, the three FixedQ ones, bw6-761 MillerLoopDirect) for the error
+		for nP := 0; nP <= maxN; nP++ {
+			for nQ := 0; nQ <= maxN; nQ++ {
+				if nP == nQ {
+					continue
+				}
+				var as, bs []*big.Int
+				for i := 0; i < nP; i++ {
+					as = append(as, c05Scalar(g, r))
+				}
+				for i := 0; i < nQ; i++ {
+					bs = append(bs, c05Scalar(g, r))
+				}
+				inf := func() *big.Int {
+					if g.rng.intn(3) == 0 {
+						return new(big.Int).Set(r)
+					}
+					return new(big.Int)
+				}
+				for i := 0; i < nP && i < nQ; i++ {
+					switch g.rng.intn(3) {
+					case 0:
+						as[i] = inf()
+					case 1:
+						bs[i] = inf()
+					default:
+						as[i], bs[i] = inf(), inf()
+					}
+				}
+				if g.rng.intn(4) == 0 { // the surplus infinite as well
+					for i := nQ; i < nP; i++ {
+						as[i] = inf()
+					}
+					for i := nP; i < nQ; i++ {
+						bs[i] = inf()
+					}
+				}
+				g.c05Line("variants", curve, as, bs)
+				g.c05Line("check", curve, as, bs)
+				if nP == 0 || nQ == 0 || g.thorough() {
+					g.c05Line("pair", curve, as, bs)
+				}
+			}
+		}
 	}
 	// malformed stream
 	g.emit("C05")
@@ -933,4 +1154,15 @@ func genC05(g *gen) {
 	g.emit("C05 hist bn254 1 1 1 pf G")                                         // not a scalar
 	g.emit("C05 hist bn254 1 9 1 pf 1 pf 1 pf 1 pf 1 pf 1 pf 1 pf 1 pf 1 pf 1") // too many calls
 	g.emit("C05 hist bn254")
+	g.emit("C05 fehist bn254")
+	g.emit("C05 fehist bn254 0 1 1 0")                   // no Miller-loop output
+	g.emit("C05 fehist bn254 1 0 1 2 3")                 // no call
+	g.emit("C05 fehist bn254 1 1 1 2 3 1 1")             // index out of range
+	g.emit("C05 fehist bn254 1 1 0 1 0")                 // empty sub-list
+	g.emit("C05 fehist bn254 1 1 1 2 3 0")               // call without argument
+	g.emit("C05 fehist bn254 1 1 1 2 3 5 0 0 0 0 0")     // too many arguments
+	g.emit("C05 fehist bn254 1 1 1 2 3 1 0 0")           // trailing token
+	g.emit("C05 fehist bn254 1 1 2 2 3 1 0")             // sub-list cut short
+	g.emit("C05 fehist bn254 1 1 1 G 3 1 0")             // not a scalar
+	g.emit("C05 fehist bn254 2 2 1 2 3 1 5 7 2 0 1 1 0") // well-formed
 }
